@@ -30,7 +30,8 @@ def seeds_for(pid=None):
         r = json.loads(res.read_text())
         for p in sorted(r.get("check_exit_codes", {})):
             if pid is None or p == pid:
-                out.append((dict(id=r["id"], breaks_property=p, expect="clean"), res.parent / "patch.diff"))
+                rebased = res.parent / "patch_current_tree.diff"
+                out.append((dict(id=r["id"], breaks_property=p, expect="clean"), rebased if rebased.exists() else res.parent / "patch.diff"))
     return out
 
 
